@@ -11,6 +11,9 @@ modes: harness/h_c01.cpp (raw compressed matrices of the quadratic operators) vs
 Susceptibility::operator()(n), of_tau vs PV.EDSpec.susc / susc_tau on the full Fock space, tolerance 1e-11*scale + documented
 truncation bound (PV.TruncSpec); (C3) relations checked on the library's own numbers: modes 1,2,3 identical; mode k - mode 0 =
 -beta<A><B> at n = 0 and 0 elsewhere; of_tau(mode 1) - of_tau(mode 0) = -<A><B>.
+Every tier includes the deterministic low-temperature family LOWTEMP (beta*|pole| ~ 1000 .. 3200, thorough: 80000; poles of both
+signs with residues of order one) on a nine-point tau grid with both ends and points on either side of 709.78/|pole|; the
+reference for chi(tau) there is PV.TruncSpec.susc_tau_safe (all exponents <= 0).
 """
 import json
 import re
@@ -276,6 +279,56 @@ FIXED = [
 ]
 
 
+# Low temperature times a large gap, deterministic, every tier: beta*|pole| far beyond 709.78 (= log of the largest binary64
+# number), where exp(beta*|pole|) is no longer a number and the imaginary-time form of a term must be written so that every
+# exponent is <= 0.  Poles of both signs with residues of order one (the lower state on either side of the transition):
+# Hubbard dimers with U = 10 / 4 / 1 at beta = 100 / 400 / 1000 (charge-transfer poles +-U), an atom in a strong field
+# (spin-flip poles +-8).  tau grid: both ends, points next to them, and points on both sides of 709.78/|pole|.
+# Reference: PV.TruncSpec.susc_tau_safe (exponents combined, all <= 0) for chi(tau), EDSpec.susc with weights relative to
+# the lowest eigenvalue for chi(i W_n): nothing on the reference side overflows.
+LOWTEMP = [
+    # (family, scenario, modes, build, quadruples, (beta * largest |pole|, roughly))
+    ("lowT-dimer", "site A 1 2\nsite B 1 2\naddCoulombS A 10 -5\naddCoulombS B 10 -4.5\naddHopping4 A B 1\nsymm default\nbeta 100\n", 4, "real",
+     [(0, 2, 2, 0), (2, 0, 0, 2), (0, 0, 0, 0), (0, 0, 2, 2), (0, 1, 1, 0), (1, 3, 1, 3)], 1000),
+    ("lowT-dimer", "site A 1 2\nsite B 1 2\naddCoulombS A 1 -0.5\naddCoulombS B 1 -0.5\naddHopping4 A B 0.125\nsymm default\nbeta 1000\n", 4, "real",
+     [(0, 2, 2, 0), (3, 1, 1, 3), (1, 1, 1, 1), (0, 0, 3, 3), (0, 2, 0, 2)], 1000),
+    ("lowT-atom", "site A 1 2\naddCoulombS A 2 -1\naddMagnetization A 4\nsymm default\nbeta 400\n", 2, "real",
+     [(0, 1, 1, 0), (1, 0, 0, 1), (0, 0, 1, 1), (0, 0, 0, 0)], 3200),
+]
+LOWTEMP_THOROUGH = [
+    ("lowT-dimer", "site A 1 2\nsite B 1 2\naddCoulombS A 4 -2\naddCoulombS B 4 -1.75\naddHopping4 A B 0.5\naddHopping8 A B 0.25 0 0 0 1\nsymm default\nbeta 400\n",
+     4, "real", [(0, 2, 2, 0), (2, 0, 0, 2), (0, 3, 3, 0), (0, 0, 0, 0), (0, 0, 2, 2), (0, 1, 1, 0), (1, 3, 0, 2)], 1600),
+    ("lowT-dimer", "site A 1 2\nsite B 1 2\naddCoulombS A 10 -5\naddCoulombS B 10 -4.5\naddHopping4 A B 1\nsymm ignore\nbeta 100\n", 4, "real",
+     [(0, 2, 2, 0), (2, 0, 0, 2), (0, 0, 0, 0), (0, 1, 1, 0)], 1000),
+    ("lowT-dimer-cplx", "site A 1 2\nsite B 1 2\naddCoulombS A 10 -5\naddCoulombS B 10 -4.5\naddHopping4 A B 1,0.5\nsymm default\nbeta 100\n", 4, "complex",
+     [(0, 2, 2, 0), (2, 0, 0, 2), (0, 0, 0, 0), (0, 0, 2, 2), (0, 1, 1, 0)], 1000),
+    ("lowT-atom", "site A 1 2\naddCoulombS A 2 -1\naddMagnetization A 4\nsymm ignore\nbeta 10000\n", 2, "real",
+     [(0, 1, 1, 0), (1, 0, 0, 1), (0, 0, 1, 1)], 80000),
+]
+LOWTEMP_TAU_FRACTIONS = [0.0, 1.0 / 1024, 0.125, 0.5, 0.6875, 0.75, 0.875, 1023.0 / 1024, 1.0]
+
+
+def low_temperature(tier):
+    return [(fam, text, n, re.search(r'(?m)^symm (\S+)', text).group(1), variant, quads)
+            for (fam, text, n, variant, quads, _) in LOWTEMP + ([] if tier == "quick" else LOWTEMP_THOROUGH)]
+
+
+def tau_grid(beta, fam=""):
+    if fam.startswith("lowT") or (fam == "replay" and beta >= 100):
+        return [f * beta for f in LOWTEMP_TAU_FRACTIONS]
+    return [0.0, 0.125 * beta, 0.5 * beta, 0.875 * beta, beta]
+
+
+def note_low_temperature(chk, fam, text, r):
+    """evidence that these scenarios are where they are meant to be: beta * (largest eigenvalue difference)"""
+    try:
+        ev = [e for v in r.eigs().values() for e in v]
+        chk.extra.setdefault("low_temperature", []).append({"family": fam, "scenario": L.canon(text), "beta": r.beta(),
+                                                            "beta*spectral_width": r.beta() * (max(ev) - min(ev))})
+    except Exception as ex:
+        chk.tie_broken("low-temperature bookkeeping", "%s: %r" % (L.canon(text), ex))
+
+
 def run(chk):
     quick = chk.tier == "quick"
     ok, log = chk.prove(["extract/Extract_C01.vo", "extract/Extract_ED.vo"])
@@ -298,10 +351,10 @@ def run(chk):
     scs = L.scenarios(chk.rng, chk.tier)
     if quick:
         scs = [s for k, s in enumerate(scs) if k % 2 == 0 or s[0] in ("two-site-spinflip", "pairing")][:10]
-    work = [(f, t, n, sy, v, q) for (f, t, n, sy, v, q) in FIXED] + [(f, t, n, sy, v, None) for (f, t, n, sy, v) in scs]
+    work = [(f, t, n, sy, v, q) for (f, t, n, sy, v, q) in FIXED] + low_temperature(chk.tier) + [(f, t, n, sy, v, None) for (f, t, n, sy, v) in scs]
     for (fam, text, nmodes, symm, variant, fixed_quads) in work:
         beta = float(re.search(r'(?m)^beta (\S+)', text).group(1))
-        taus = [0.0, 0.125 * beta, 0.5 * beta, 0.875 * beta, beta]
+        taus = tau_grid(beta, fam)
         quads = fixed_quads or quadruples(chk.rng, nmodes, chk.tier)
         negl = {}
         if have_model:
@@ -310,6 +363,8 @@ def run(chk):
             except pv.BuildError as ex:
                 chk.tie_broken("h_c01 build (%s)" % variant, ex.what)
         fails, r = end_to_end(chk, fam, text, nmodes, symm, variant, quads, ns, taus, negl_of=lambda q: negl.get(q, 0.0))
+        if fam.startswith("lowT") and r.dump:
+            note_low_temperature(chk, fam, text, r)
         for f in fails:
             if f[0] == "crash":
                 chk.violation("crash: %s | %s" % (L.canon(text), variant), "the documented workflow crashed or threw: %s" % (f[1],),
@@ -331,7 +386,9 @@ def run(chk):
     chk.rule = ("scenario families of tools/scen.py under default and ignored symmetries (real build; complex build and beta up to 200 in "
                 "the thorough tier); per scenario quadruples (a,b,c,d) of three kinds: density-density, A = c^+_a c_b with B = A^+ (S_z-changing "
                 "when a,b differ in spin), others incl. random; bosonic Matsubara numbers incl. 0 and negative; all four subtraction modes; "
-                "five imaginary times incl. the end points; a case = (scenario, quadruple); non-trivial = chi not identically zero; "
+                "five imaginary times incl. the end points; in every tier three fixed low-temperature scenarios (Hubbard dimers U = 10 / 1 at "
+                "beta = 100 / 1000, an atom in a strong field at beta = 400; thorough: four more incl. symmetries ignored, complex hopping, "
+                "beta = 10000) with nine imaginary times (both ends, next to the ends, both sides of 709.78/|pole|); a case = (scenario, quadruple); non-trivial = chi not identically zero; "
                 "distinct = distinct canonical input")
     chk.extra["scenarios"] = len(scs)
 
@@ -355,7 +412,7 @@ def replay(chk, path):
         t = rp["query"].split()
         q = tuple(int(x) for x in t[1:5])
         beta = float(re.search(r'(?m)^beta (\S+)', rp["scenario"]).group(1))
-        taus = [0.0, 0.125 * beta, 0.5 * beta, 0.875 * beta, beta]
+        taus = tau_grid(beta, "replay")
         fails, _ = end_to_end(chk, "replay", rp["scenario"], 4, "?", rp.get("variant", "real"), [q], [-5, -2, -1, 0, 1, 3], taus)
         print("replay: %d failing points" % len(fails))
         for f in fails[:10]:
